@@ -52,6 +52,10 @@ ROOT_TREE = {
     # a file whose absolute path is longer than 255 characters although every component is short enough
     LONGDIR: None, LONGDIR + "/" + "M" * 100: None, LONGDIR + "/" + "M" * 100 + "/" + "N" * 60: None, LONGDIR + "/" + "M" * 100 + "/" + "N" * 60 + "/deep.txt": b"DEEP FILE",
     LONGDIR + "/" + "M" * 100 + "/" + "N" * 60 + "/index.html": b"DEEP INDEX",
+    # a backslash is an ordinary character of a POSIX file name, not a separator
+    "back\\slash.txt": b"BACKSLASH NAME", "dir\\f.txt": b"DIR BACKSLASH F",
+    # names that already end in .html twice; a directory without an index page but with index.html.html
+    "old.html.html": b"OLD HTML HTML", "drafts": None, "drafts/index.html.html": b"DRAFTS INDEX HTML HTML", "drafts/note.html": b"NOTE",
     # something that is neither a regular file nor a directory (a unix socket): not served, not found
     "sock": SOCKET, "sock.html": SOCKET,
 }
@@ -331,6 +335,9 @@ def all_paths(depth):
                         seen.add(p)
                         yield p
     deep = "/" + LONGDIR + "/" + "M" * 100 + "/" + "N" * 60
+    for p in ("/back\\slash.txt", "/dir\\f.txt", "/dir\\index.html", "\\file.txt", "/\\file.txt", "/dir/\\f.txt", "/dir\\", "/..\\secret.txt", "/dir/..\\..\\secret.txt",
+              "/drafts/", "/drafts", "/drafts/index", "/drafts/index.html", "/old.html", "/old.html/", "/old.html/.", "/old", "/drafts/note", "/drafts/note.html/.", "/drafts/.", "/drafts/./"):
+        yield p
     for p in ("/twin_a.txt", "/twin_b.txt", "/twin_a.txt", "/dir/twin_c.txt", "/twin_b.txt", "/sock", "/sock/", "/sock.html", "/dir/../sock", deep + "/deep.txt", deep, deep + "/", deep + "/deep.txt/", deep + "/index", deep + "/../" + "N" * 60 + "/deep.txt"):
         yield p  # (kept in this order and not de-duplicated: the twins are asked for alternately)
     for p in ("", "/", "//", "/root", "/../root/file.txt", "/../rootx/s.txt", "/../root.html", "/..", "/%00", "/file.txt/x", "/" + "a" * 300, "/x/", "/dir/index", "/..name", "/..name/"):
@@ -339,9 +346,51 @@ def all_paths(depth):
             yield p
 
 
+def chain_family(r, tier):
+    """Static-file apps behind one another in one request: Files(root, handle_404=Subpaths(("/dir", Files(root)), ("", Pages(root)))).
+    What the outer app does not find goes to the mount table; below /dir the inner Files app sees the remainder of the path."""
+    from baize import wsgi as W, asgi as A
+    sb = Sandbox()
+    ROOTNAME[0] = "root"
+    try:
+        for iface, m in (("wsgi", W), ("asgi", A)):
+            app = m.Files(sb.root, handle_404=m.Subpaths(("/dir", m.Files(sb.root)), ("", m.Pages(sb.root))))
+            for path in all_paths(2):
+                if not path.startswith("/"):
+                    continue
+                _AUDIT["log"] = []
+                got, res = request(app, iface, path)
+                first = ref("Files", path)
+                if first[0] == "file":
+                    want = first
+                elif first[0] == "file-or-notfound":
+                    continue  # the statement leaves a file path with a trailing slash open
+                elif path == "/dir" or path.startswith("/dir/"):
+                    want = ref("Files", path[len("/dir"):])
+                else:
+                    want = ref("Pages", path)
+                r.count("evaluations")
+                r.count("distinct_nontrivial")
+                w = {"spelling": "chain", "iface": iface, "kind": "chain", "path": path, "root": ""}
+                where = f"{iface} Files(handle_404=Subpaths(/dir -> Files, '' -> Pages)) on {path!r}"
+                if _AUDIT["log"]:
+                    r.violation("opened-outside-directory", w, f"{where} opened a file outside the served directory")
+                elif got[0] == "exception":
+                    r.violation(f"exception:{got[1]}", w, f"{where} raised {got[1]}: {got[2]}".replace(_AUDIT["sandbox"] or "<none>", "<sandbox>"))
+                elif want[0] == "file" and got != ("file", want[1]):
+                    r.violation("chain:not-served", w, f"{where}: got {got!r:.100}, expected {want!r:.100}")
+                elif want[0] == "notfound" and got != ("notfound",):
+                    r.violation("chain:wrong-outcome", w, f"{where}: got {got!r:.100}, expected not found")
+                elif want[0] == "redirect" and got[0] != "redirect":
+                    r.violation("chain:wrong-outcome", w, f"{where}: got {got!r:.100}, expected a redirect to the same URL plus '/'")
+        r.sample({"chain": "Files -> Subpaths -> Files / Pages", "paths": "all paths of <= 2 segments"})
+    finally:
+        sb.close()
+
+
 def shards(tier, seed):
     n = 8 if tier == "quick" else 32
-    return [("paths", spelling, k, n) for spelling in ("absolute", "relative", "package", "unicode", "handle404") for k in range(n)] + [("threads", "Files"), ("threads", "Pages")]
+    return [("paths", spelling, k, n) for spelling in ("absolute", "relative", "package", "unicode", "handle404") for k in range(n)] + [("threads", "Files"), ("threads", "Pages"), ("chain",)]
 
 
 def thread_family(r, kind, tier):
@@ -368,6 +417,9 @@ def run_shard(desc, tier):
     if desc[0] == "threads":
         thread_family(r, desc[1], tier)
         return r
+    if desc[0] == "chain":
+        chain_family(r, tier)
+        return r
     _, spelling, k, n = desc
     sb = Sandbox()
     ROOTNAME[0] = "raíz文" if spelling == "unicode" else "root"
@@ -393,6 +445,11 @@ def finish(merged, tier):
 
 
 def replay(w):
+    if w.get("spelling") == "chain":
+        r = R()
+        chain_family(r, "quick")
+        hits = {k: v for k, v in r.viol.items() if v[1].get("path") == w["path"] and v[1].get("iface") == w["iface"]}
+        return bool(hits), {"violations": sorted(hits), "texts": [v[2][:300].replace(_AUDIT.get("sandbox") or "<none>", "<sandbox>") for v in hits.values()]}
     r = R()
     if "threads" in w:
         thread_family(r, w["threads"], "quick")
